@@ -265,8 +265,8 @@ func (ev *Eval) eval(e Expr) Val {
 		if v, ok := ev.lookupConst(x.Name); ok {
 			return v
 		}
-		if srt, ok := ev.g.ghostSorts[x.Name]; ok {
-			return Val{Term: s.ghostGet(ev.mem, x.Name, srt)}
+		if ev.g.isGhost(x.Name) {
+			return Val{Term: s.ghostGet(ev.mem, x.Name, ev.g.ghostSort(x.Name))}
 		}
 		if uf := ev.g.db.UFuns[x.Name]; uf != nil && len(uf.Args) == 0 {
 			return ev.specCall(x.Name, nil)
@@ -340,6 +340,12 @@ func (ev *Eval) eval(e Expr) Val {
 		}
 	case *EBin:
 		return ev.binary(x)
+	case *ELet:
+		v := ev.eval(x.Val)
+		sub := ev.sub()
+		sub.pending = ev.pending
+		sub.bound[x.Name] = v
+		return sub.eval(x.Body)
 	case *EQuant:
 		sub := ev.sub()
 		var decls []string
@@ -394,6 +400,22 @@ func (ev *Eval) eval(e Expr) Val {
 			for _, p := range x.Pats {
 				var ts []string
 				for _, pe := range p {
+					// has(m, k) as a trigger: the membership select only (no connectives in patterns)
+					if c, ok := pe.(*ECall); ok && (c.Fn == "has" || c.Fn == "in") && len(c.Args) == 2 {
+						m := sub.eval(c.Args[0])
+						var mt *types.Map
+						var cur string
+						if m.Map != nil {
+							mt, cur = m.Map.T, s.load(sub.mem, m.Map.Origin)
+						} else if m.mapT != nil {
+							mt, cur = m.mapT, m.Term
+						}
+						if mt != nil {
+							k := sub.term(sub.coerce(sub.eval(c.Args[1]), mt.Key()))
+							ts = append(ts, "(select "+s.mapPart(s.sortOf(mt.Key()), s.sortOf(mt.Elem()), "mhas", cur)+" "+k+")")
+							continue
+						}
+					}
 					ts = append(ts, sub.term(sub.eval(pe)))
 				}
 				ps = append(ps, ":pattern ("+strings.Join(ts, " ")+")")
@@ -432,6 +454,8 @@ func (ev *Eval) wrapSpec(term, srt string, gt types.Type) Val {
 			// spec-level sequence value: an anonymous constant view
 			es := ev.s.sortOf(u.Elem())
 			return Val{T: gt, Term: term, seqElem: u.Elem(), seqES: es}
+		case *types.Map:
+			return Val{T: gt, Term: term, mapT: u}
 		}
 	}
 	return Val{T: gt, Term: term}
@@ -773,7 +797,8 @@ func (ev *Eval) callExpr(x *ECall) Val {
 	case "old":
 		o := ev.sub()
 		o.mem = ev.old
-		return o.eval(x.Args[0])
+		o.pending = ev.pending
+		return o.freeze(o.eval(x.Args[0]))
 	case "len":
 		v := ev.eval(x.Args[0])
 		switch {
@@ -810,6 +835,9 @@ func (ev *Eval) callExpr(x *ECall) Val {
 		return Val{Term: "(and (not " + s.mapPart(ks, vs, "mnil", cur) + ") (select " + s.mapPart(ks, vs, "mhas", cur) + " " + k + "))", T: boolT}
 	case "isnil":
 		v := ev.eval(x.Args[0])
+		if v.mapT != nil {
+			return Val{Term: s.mapPart(s.sortOf(v.mapT.Key()), s.sortOf(v.mapT.Elem()), "mnil", v.Term), T: boolT}
+		}
 		return Val{Term: ev.ptrEq(v, Val{Term: "0", T: types.Typ[types.UntypedNil]}), T: boolT}
 	case "ite":
 		c := ev.term(ev.eval(x.Args[0]))
@@ -849,6 +877,15 @@ func (ev *Eval) callExpr(x *ECall) Val {
 		ea := ev.indexVal(a, Val{Term: "q_eq"})
 		eb := ev.indexVal(b, Val{Term: "q_eq"})
 		return Val{Term: "(and (= " + la + " " + lb + ") (forall ((q_eq Int)) (=> (and (<= 0 q_eq) (< q_eq " + la + ")) (= " + ev.term(ea) + " " + ev.term(eb) + "))))", T: boolT}
+	case "seq":
+		// seq(a): the sequence of the elements of Go array a
+		v := ev.eval(x.Args[0])
+		at, ok := types.Unalias(v.T).Underlying().(*types.Array)
+		if !ok {
+			ev.fail("seq() of non-array")
+		}
+		es := s.sortOf(at.Elem())
+		return Val{T: types.NewSlice(at.Elem()), Term: s.mkSeq(es, fmt.Sprint(at.Len()), ev.term(v)), seqElem: at.Elem(), seqES: es}
 	case "pow2":
 		// 2^k for 0 <= k < 64, saturating at 2^64 above (closed form, no axioms)
 		k := ev.intTerm(ev.eval(x.Args[0]), Val{})
@@ -891,6 +928,16 @@ func (ev *Eval) callExpr(x *ECall) Val {
 	if _, ok := ev.g.db.Defines[x.Fn]; ok {
 		return ev.specCall(x.Fn, x.Args)
 	}
+	// struct constructor T(f1, f2, ...) with the fields in declaration order
+	if t := ev.lookupType(x.Fn); t != nil {
+		if st, ok := structOf(t); ok && st.NumFields() == len(x.Args) && len(x.Args) != 1 {
+			var fs []string
+			for i, a := range x.Args {
+				fs = append(fs, ev.term(ev.coerce(ev.eval(a), st.Field(i).Type())))
+			}
+			return Val{T: t, Term: "(mk_" + s.sortOf(t) + " " + strings.Join(fs, " ") + ")"}
+		}
+	}
 	// type conversion T(e) of integer types is the identity on values
 	if t := ev.lookupType(x.Fn); t != nil && len(x.Args) == 1 {
 		v := ev.eval(x.Args[0])
@@ -906,6 +953,23 @@ func (ev *Eval) callExpr(x *ECall) Val {
 	}
 	ev.fail("unknown function %q", x.Fn)
 	return Val{}
+}
+
+// freeze turns a value read in this evaluator's memory into a pure value
+// (no location, no lazily read view), so that it can be used in another state.
+func (ev *Eval) freeze(v Val) Val {
+	switch {
+	case v.View != nil:
+		if v.View.IsStr {
+			return v
+		}
+		es := ev.s.sortOf(v.View.Elem)
+		return Val{T: v.T, Term: ev.s.viewSeq(ev.mem, v.View), seqElem: v.View.Elem, seqES: es}
+	case v.Map != nil:
+		return Val{T: v.T, Term: ev.s.load(ev.mem, v.Map.Origin), mapT: v.Map.T}
+	}
+	v.lval = nil
+	return v
 }
 
 func firstType(a, b types.Type) types.Type {
